@@ -31,6 +31,13 @@
 #include "urcu-die.h"
 #include "urcu-utils.h"
 #include "compat-smp.h"
+#ifdef URCU_VERIF
+#include <urcu/verif.h>
+#else
+#ifndef urcu_verif_point
+#define urcu_verif_point(id, ctx) do { } while (0)
+#endif
+#endif
 
 #define SET_AFFINITY_CHECK_PERIOD		(1U << 8)	/* 256 */
 #define SET_AFFINITY_CHECK_PERIOD_MASK		(SET_AFFINITY_CHECK_PERIOD - 1)
@@ -303,6 +310,7 @@ static void call_rcu_completion_wake_up(struct call_rcu_completion *completion)
 	/* Write to completion barrier count before reading/writing futex */
 	cmm_smp_mb();
 	if (caa_unlikely(uatomic_load(&completion->futex) == -1)) {
+		urcu_verif_point(URCU_VP_CRCU_BARRIER_WAKE, completion);
 		uatomic_store(&completion->futex, 0);
 		if (futex_async(&completion->futex, FUTEX_WAKE, 1,
 				NULL, NULL, 0) < 0)
@@ -350,6 +358,7 @@ static void *call_rcu_thread(void *arg)
 			 */
 			rcu_unregister_thread();
 			cmm_smp_mb__before_uatomic_or();
+			urcu_verif_point(URCU_VP_CRCU_HELPER_PAUSE, crdp);
 			uatomic_or(&crdp->flags, URCU_CALL_RCU_PAUSED);
 			while ((uatomic_load(&crdp->flags) & URCU_CALL_RCU_PAUSE) != 0)
 				(void) poll(NULL, 0, 1);
@@ -364,6 +373,7 @@ static void *call_rcu_thread(void *arg)
 		urcu_posix_assert(splice_ret != CDS_WFCQ_RET_WOULDBLOCK);
 		urcu_posix_assert(splice_ret != CDS_WFCQ_RET_DEST_NON_EMPTY);
 		if (splice_ret != CDS_WFCQ_RET_SRC_EMPTY) {
+			urcu_verif_point(URCU_VP_CRCU_HELPER_SPLICED, crdp);
 			synchronize_rcu();
 			cbcount = 0;
 			__cds_wfcq_for_each_blocking_safe(&cbs_tmp_head,
@@ -381,6 +391,7 @@ static void *call_rcu_thread(void *arg)
 			break;
 		rcu_thread_offline();
 		if (!rt) {
+			urcu_verif_point(URCU_VP_CRCU_HELPER_PRE_SLEEP, crdp);
 			if (cds_wfcq_empty(&crdp->cbs_head,
 					&crdp->cbs_tail)) {
 				call_rcu_wait(crdp);
@@ -406,6 +417,7 @@ static void *call_rcu_thread(void *arg)
 		cmm_smp_mb();
 		uatomic_store(&crdp->futex, 0);
 	}
+	urcu_verif_point(URCU_VP_CRCU_HELPER_STOP, crdp);
 	uatomic_or(&crdp->flags, URCU_CALL_RCU_STOPPED);
 	rcu_unregister_thread();
 	return NULL;
@@ -704,6 +716,7 @@ static void _call_rcu(struct rcu_head *head,
 	head->func = func;
 	cds_wfcq_enqueue(&crdp->cbs_head, &crdp->cbs_tail, &head->next);
 	uatomic_inc(&crdp->qlen);
+	urcu_verif_point(URCU_VP_CRCU_ENQUEUED, crdp);
 	wake_call_rcu_thread(crdp);
 }
 
@@ -771,6 +784,7 @@ void _call_rcu_data_free(struct call_rcu_data *crdp, unsigned int flags)
 		while ((uatomic_load(&crdp->flags) & URCU_CALL_RCU_STOPPED) == 0)
 			(void) poll(NULL, 0, 1);
 	}
+	urcu_verif_point(URCU_VP_CRCU_FREE_STOPPED, crdp);
 	call_rcu_lock(&call_rcu_mutex);
 	if (!cds_wfcq_empty(&crdp->cbs_head, &crdp->cbs_tail)) {
 		call_rcu_unlock(&call_rcu_mutex);
@@ -778,6 +792,7 @@ void _call_rcu_data_free(struct call_rcu_data *crdp, unsigned int flags)
 		/* CBs queued here will be handed to the default list. */
 		(void) get_default_call_rcu_data();
 		call_rcu_lock(&call_rcu_mutex);
+		urcu_verif_point(URCU_VP_CRCU_FREE_HANDOVER, crdp);
 		__cds_wfcq_splice_blocking(&default_call_rcu_data->cbs_head,
 			&default_call_rcu_data->cbs_tail,
 			&crdp->cbs_head, &crdp->cbs_tail);
@@ -904,6 +919,7 @@ void rcu_barrier(void)
 		count++;
 
 	/* Referenced by rcu_barrier() and each call_rcu thread. */
+	urcu_verif_point(URCU_VP_CRCU_BARRIER_QUEUED, completion);
 	urcu_ref_set(&completion->ref, count + 1);
 	completion->barrier_count = count;
 
@@ -920,6 +936,7 @@ void rcu_barrier(void)
 
 	/* Wait for them */
 	for (;;) {
+		urcu_verif_point(URCU_VP_CRCU_BARRIER_PRE_WAIT, completion);
 		uatomic_dec(&completion->futex);
 		/* Decrement futex before reading barrier_count */
 		cmm_smp_mb();
